@@ -33,6 +33,9 @@ LEVEL_NOTE = ("Proved: protocol model. Sampled: that the real processes take exa
 TECHNIQUE = "Lean 4 proof over a labelled transition system + lock-step trace correspondence with real, instrumented OS processes"
 OBLIGATIONS = [
     "Grog.C10.mutex",
+    "Grog.C10.stale_never_blocks",
+    "Grog.C10.stale_never_blocks_all_dead",
+    "Grog.C10.waiter_proceeds",
     "Grog.C10.mutex_witness_empty",
     "Grog.C10.mutex_witness_stale",
 ]
